@@ -1,7 +1,7 @@
 (* C17, third clause — messages to a peer leave in the order they were queued.
-   Only statements; proofs are in GS.MsgQueueFifo (over the message-queue model of C15/C16). *)
+   Only statements; proofs are in GS.MsgQueueFifo and GS.MsgQueueContent (over the message-queue model of C15/C16). *)
 From Coq Require Import List NArith Bool.
-From GS Require Import Base MsgQueue MsgQueue16 MsgQueueFifo.
+From GS Require Import Base MsgQueue MsgQueue16 MsgQueueFifo MsgQueueOrder MsgQueueContent.
 Import ListNotations.
 Open Scope N_scope.
 
@@ -14,3 +14,34 @@ Open Scope N_scope.
 Theorem C17_fifo_wire : forall ls, incr_from 0 (wire_topics mq_new ls).
 Proof. exact c17_fifo_wire. Qed.
 Print Assumptions C17_fifo_wire.
+
+(* The same at the level of CONTENT.  [crun ls] runs a history and records the queue log [c_q] — every link entry
+   (request, (link, present?)) a build callback queued, with the topic of the message it was built into, in the
+   order queued — and the wire log [c_w] — every message whose SendMsg returned ok, in order.  For every history:
+   (1) the messages leave in the order in which they were started;
+   (2) what a message carries for a request is exactly what that request's transactions queued into that message,
+       in the order they queued it ([qitems r t Q]: the entries of r with topic t, in log order) — nothing invented,
+       nothing reordered inside a request;
+   (3) an entry queued BEFORE another one but into a LATER message never leaves at all (its message, or its
+       request's part of it, was scrubbed after a failure; [before e1 e2 Q]: e1 occurs before e2 in Q).
+   Hence the sequence of entries in wire order (messages in order, a request's entries inside a message in list
+   order; entries of different requests inside one message are unordered on the wire) is an order-preserving
+   subsequence of the queue log: among the entries that leave, one queued earlier is in the same or an earlier
+   message.  A present link's block is added to the same builder by the same operation (apply_op). *)
+Theorem C17_fifo_content : forall ls, let c := crun ls in
+  incr_from 0 (map w_topic (c_w c)) /\
+  (forall w r st links, In w (c_w c) -> In (r, (st, links)) (w_resps w) -> links = qitems r (w_topic w) (c_q c)) /\
+  (forall e1 e2, before e1 e2 (c_q c) -> snd e2 < snd e1 -> forall w, In w (c_w c) -> w_topic w <> snd e1).
+Proof. exact c17_fifo_content. Qed.
+Print Assumptions C17_fifo_content.
+
+(* the executable monitor MON17F (GS.MsgQueueOrder.mon17, evaluated by drivers mq16 and msgqueue on the
+   implementation's wire and queued operations) rejects a later block packed into an earlier pending message,
+   whether it belongs to another request or to the same one, and accepts the order the code produces *)
+Example C17_fifo_monitor_verdicts :
+  let q := [(1, (2, true)); (2, (3, true)); (3, (4, true))] in
+  mon17 q [([(1, (14, [(2, true)])); (3, (14, [(4, true)]))], [2; 4]); ([(2, (14, [(3, true)]))], [3])] = false /\
+  mon17 q [([(1, (14, [(2, true)]))], [2]); ([(2, (14, [(3, true)])); (3, (14, [(4, true)]))], [3; 4])] = true /\
+  mon17 [(1, (2, true)); (1, (3, true))] [([(1, (14, [(3, true)]))], [3]); ([(1, (14, [(2, true)]))], [2])] = false /\
+  mon17 q [([(1, (14, [(2, true)]))], [])] = false.
+Proof. vm_compute. repeat split; reflexivity. Qed.
